@@ -19,8 +19,8 @@ Qed.
 Lemma ts_run2_combine {T1 T2 St O} (F : feat (T1 * T2) St O) body w (xs : list T1) (ys : list T2) :
   length xs = length ys -> ts_run2 F body w xs ys = ts_run F body w (combine xs ys).
 Proof.
-  intros H. unfold ts_run2, ts_run, rolling2_apply_to, rolling2_apply_default.
-  destruct body; [|reflexivity].
+  intros H. unfold ts_run2, ts_run. destruct body; [|apply rolling2_apply_default_le; lia].
+  unfold rolling2_apply_to.
   replace (length ys <? length xs)%nat with false by (symmetry; apply Nat.ltb_ge; lia). reflexivity.
 Qed.
 
